@@ -216,6 +216,7 @@ def rule_of_five(chk, db, rec_q):
 META_EXTRA = 'SLOTS-D / SLOTS-C (destroyed range = removed tail; construction at the first free slot); SRC (no source-destroying slot on a const source); VT (vtable value vs storage content through constructors, assignment, swap, destructor).'
 META = (META[0] + " " + META_EXTRA, META[1])
 META = (META[0] + ' L5 also covers move assignment of single-slot owners.', META[1])
+META = (META[0] + ' TRIVREQ (folds over triviality traits in the sum types are conjunctions).', META[1])
 
 
 def trivreq_rule(chk, files=("_variant/variant.hpp", "_optional/optional.hpp", "_expected/expected.hpp")):
